@@ -79,6 +79,14 @@ type c10Shape struct {
 	// Parts: number of partitions of the stream (0 = 1); the requests always
 	// address partition 0, the others exist for resume-all (lifecycle unit).
 	Parts int32 `json:"partitions,omitempty"`
+	// EqTS: directly appended messages come in runs of 2..5 EQUAL timestamps
+	// (a clock that returns the same reading twice: coarse or stepped clock).
+	EqTS bool `json:"equal_timestamp_runs,omitempty"`
+	// Burst: (ViaAPI) the content is published by up to Burst concurrent
+	// publishers at a time, so that the leader sequences several messages in
+	// one batch; the acks (offset, reception timestamp) are kept for the
+	// ts-at-ack-* request classes.
+	Burst int `json:"api_burst_max,omitempty"`
 }
 
 func (s c10Shape) label() string {
@@ -94,6 +102,12 @@ func (s c10Shape) label() string {
 	}
 	if s.EmptyActive {
 		l += "+emptyactive"
+	}
+	if s.EqTS {
+		l += "+eqts"
+	}
+	if s.Burst > 0 {
+		l += "+burst"
 	}
 	return l
 }
@@ -118,6 +132,43 @@ type c10State struct {
 	Bases    []int64 // base offsets of the segment files
 	Readonly bool
 	idx      map[int64]int
+	Acks     []c10Ack // acks of burst-published messages (shape.Burst > 0)
+}
+
+// c10Ack: what the Publish API returned for one message of a burst.
+type c10Ack struct {
+	Off  int64 // ack.Offset
+	TS   int64 // ack.ReceptionTimestamp
+	Pos  int   // position (by offset) inside its burst
+	Size int   // number of messages of the burst
+}
+
+// eqRuns returns the index ranges [i, j] (j > i) of the maximal runs of equal
+// timestamps among the retained messages.
+func (st *c10State) eqRuns() [][2]int {
+	var out [][2]int
+	for i := 0; i < len(st.All); {
+		j := i
+		for j+1 < len(st.All) && st.All[j+1].TS == st.All[i].TS {
+			j++
+		}
+		if j > i {
+			out = append(out, [2]int{i, j})
+		}
+		i = j + 1
+	}
+	return out
+}
+
+// runOf counts the retained messages that carry exactly this timestamp.
+func (st *c10State) runOf(ts int64) int {
+	n := 0
+	for _, m := range st.All {
+		if m.TS == ts {
+			n++
+		}
+	}
+	return n
 }
 
 func (st *c10State) has(off int64) bool { _, ok := st.idx[off]; return ok }
@@ -170,13 +221,30 @@ type c10Env struct {
 	extra    map[string]any
 	reqMut   func(*client.SubscribeRequest)
 	afterSub func()
+	// equal-timestamp runs of directly appended messages (shape.EqTS)
+	lastTS int64
+	eqLeft int
+	// acks of burst-published messages (shape.Burst)
+	acks []c10Ack
 }
 
 var c10StreamSeq atomic.Int64
 
 func (e *c10Env) newMessage() *commitlog.Message {
 	e.seq++
-	m := &commitlog.Message{MagicByte: 1, Timestamp: c10Now(), LeaderEpoch: e.p.log.LastLeaderEpoch(),
+	ts := int64(0)
+	if e.shape.EqTS && e.eqLeft > 0 && e.lastTS != 0 {
+		// the clock returned the same reading again
+		ts = e.lastTS
+		e.eqLeft--
+	} else {
+		ts = c10Now()
+		if e.shape.EqTS && e.rng.Chance(1, 3) {
+			e.eqLeft = e.rng.Range(1, 4)
+		}
+	}
+	e.lastTS = ts
+	m := &commitlog.Message{MagicByte: 1, Timestamp: ts, LeaderEpoch: e.p.log.LastLeaderEpoch(),
 		Value: []byte(fmt.Sprintf("c10-%s-%05d", e.stream, e.seq)), Headers: map[string][]byte{}}
 	m.Key = e.keyFor(e.seq)
 	return m
@@ -255,6 +323,59 @@ func (e *c10Env) publishAPI() error {
 	return nil
 }
 
+// publishBurst publishes k messages through the Publish API from k concurrent
+// publishers (so that the leader may sequence them in one batch), keeps the
+// acks and waits until all of them are committed.
+func (e *c10Env) publishBurst(k int) error {
+	reqs := make([]*client.PublishRequest, k)
+	for i := range reqs {
+		e.seq++
+		reqs[i] = &client.PublishRequest{Stream: e.stream, Key: e.keyFor(e.seq),
+			Value: []byte(fmt.Sprintf("c10-%s-%05d", e.stream, e.seq)), AckPolicy: client.AckPolicy_LEADER}
+	}
+	acks := make([]*client.Ack, k)
+	var wg sync.WaitGroup
+	for i := range reqs {
+		wg.Add(1)
+		go func(i int) {
+			defer wg.Done()
+			ctx, cancel := context.WithTimeout(context.Background(), 8*time.Second)
+			defer cancel()
+			if resp, err := e.srv.api.Publish(ctx, reqs[i]); err == nil && resp.Ack != nil {
+				acks[i] = resp.Ack
+			}
+		}(i)
+	}
+	wg.Wait()
+	var got []c10Ack
+	maxOff := int64(-1)
+	for _, a := range acks {
+		if a == nil {
+			// an ack that does not arrive is C04's business: publish one more
+			e.rep.Count("api_publish_retries", 1)
+			if err := e.publishAPI(); err != nil {
+				return err
+			}
+			continue
+		}
+		got = append(got, c10Ack{Off: a.Offset, TS: a.ReceptionTimestamp})
+		if a.Offset > maxOff {
+			maxOff = a.Offset
+		}
+	}
+	sort.Slice(got, func(i, j int) bool { return got[i].Off < got[j].Off })
+	for i := range got {
+		got[i].Pos, got[i].Size = i, len(got)
+	}
+	e.acks = append(e.acks, got...)
+	if !vfWait(c10Watchdog, func() bool { return e.p.log.HighWatermark() >= maxOff }) {
+		return fmt.Errorf("published offset %d never committed: %w", maxOff, errVfTimeout)
+	}
+	e.rep.Count("api_bursts", 1)
+	e.rep.Count("api_burst_messages", int64(len(got)))
+	return nil
+}
+
 // waitRolled waits (logical condition) until the background cleaner has rolled
 // the full active segment, i.e. the last segment file is empty.
 func (e *c10Env) waitRolled() bool {
@@ -295,7 +416,18 @@ func c10Build(rep *kit.Report, c *vfCluster, srv *Server, sh c10Shape, seed uint
 	}
 	e.dir = filepath.Join(srv.config.DataDir, "streams", e.stream, "0")
 	// 1. content
-	if sh.ViaAPI {
+	if sh.ViaAPI && sh.Burst > 0 {
+		for left := sh.N; left > 0; {
+			k := e.rng.Range(1, sh.Burst)
+			if k > left {
+				k = left
+			}
+			if err := e.publishBurst(k); err != nil {
+				return nil, err
+			}
+			left -= k
+		}
+	} else if sh.ViaAPI {
 		for i := 0; i < sh.N; i++ {
 			if err := e.publishAPI(); err != nil {
 				return nil, err
@@ -391,6 +523,7 @@ func (e *c10Env) state() (*c10State, error) {
 		}
 	}
 	sort.Slice(st.Bases, func(i, j int) bool { return st.Bases[i] < st.Bases[j] })
+	st.Acks = e.acks
 	return st, nil
 }
 
@@ -433,8 +566,14 @@ func (e *c10Env) fence(before *c10State) ([]c10Msg, error) {
 			if err := e.publishAPI(); err != nil {
 				return nil, err
 			}
-		} else if err := e.appendDirect(1, 1); err != nil {
-			return nil, err
+		} else {
+			// the fence always carries a fresh timestamp: whether a message
+			// that arrives later with a timestamp EQUAL to the stop time
+			// belongs to the range is not documented
+			e.eqLeft = 0
+			if err := e.appendDirect(1, 1); err != nil {
+				return nil, err
+			}
 		}
 	}
 	l.SetHighWatermark(l.NewestOffset())
@@ -500,11 +639,13 @@ type c10Stop struct {
 var c10StartClasses = []string{"off-neg", "off-below-oldest", "off-oldest", "off-existing", "off-in-gap", "off-hw", "off-hw+1",
 	"off-uncommitted", "off-newest+1", "off-beyond", "earliest", "latest", "new-only",
 	"ts-before-all", "ts-at-oldest", "ts-at", "ts-between", "ts-between-gap", "ts-between-segments", "ts-between-last-segments",
-	"ts-after-hw", "ts-at-newest", "ts-after-all"}
+	"ts-after-hw", "ts-at-newest", "ts-after-all",
+	"ts-at-equal-run", "ts-at-equal-run-across-segments", "ts-at-ack-first", "ts-at-ack-mid", "ts-at-ack-last"}
 
 var c10StopClasses = []string{"on-cancel", "off-existing", "off-in-gap", "off-below-oldest", "off-below-start", "off-hw", "off-uncommitted",
 	"off-newest", "off-fence", "off-beyond", "latest",
-	"ts-before-all", "ts-at", "ts-between", "ts-between-gap", "ts-between-segments", "ts-at-newest", "ts-after-all"}
+	"ts-before-all", "ts-at", "ts-between", "ts-between-gap", "ts-between-segments", "ts-at-newest", "ts-after-all",
+	"ts-at-oldest", "ts-at-equal-run", "ts-at-equal-run-across-segments", "ts-at-ack-first", "ts-at-ack-mid", "ts-at-ack-last"}
 
 func (st *c10State) gaps(lo, hi int64) []int64 {
 	var out []int64
@@ -582,6 +723,48 @@ func (st *c10State) resolveTS(class string, rng *kit.RNG) (int64, bool) {
 		return st.All[n-1].TS, true
 	case "ts-after-all":
 		return st.All[n-1].TS + 5, true
+	case "ts-at-equal-run", "ts-at-equal-run-across-segments":
+		// the timestamp shared by a run of >= 2 consecutive messages (inside
+		// one segment file, or spread over several)
+		var cand []int64
+		for _, r := range st.eqRuns() {
+			across := st.segOf(st.All[r[0]].Off) != st.segOf(st.All[r[1]].Off)
+			if across == (class == "ts-at-equal-run-across-segments") {
+				cand = append(cand, st.All[r[0]].TS)
+			}
+		}
+		if len(cand) == 0 {
+			return 0, false
+		}
+		return cand[rng.Intn(len(cand))], true
+	case "ts-at-ack-first", "ts-at-ack-mid", "ts-at-ack-last":
+		// the reception timestamp the Publish API returned for the first / a
+		// middle / the last message of a burst of concurrent publishes
+		var cand, retained []int64
+		for _, a := range st.Acks {
+			ok := false
+			switch class {
+			case "ts-at-ack-first":
+				ok = a.Size >= 2 && a.Pos == 0
+			case "ts-at-ack-mid":
+				ok = a.Size >= 3 && a.Pos > 0 && a.Pos < a.Size-1
+			default:
+				ok = a.Size >= 2 && a.Pos == a.Size-1
+			}
+			if ok {
+				cand = append(cand, a.TS)
+				if st.has(a.Off) {
+					retained = append(retained, a.TS)
+				}
+			}
+		}
+		if len(retained) > 0 {
+			cand = retained
+		}
+		if len(cand) == 0 {
+			return 0, false
+		}
+		return cand[rng.Intn(len(cand))], true
 	}
 	return 0, false
 }
@@ -931,12 +1114,47 @@ func (st *c10State) emptyActive() bool {
 	return len(st.All) > 0 && len(st.Bases) > 0 && st.Bases[len(st.Bases)-1] > st.Newest
 }
 
+// eqOrigin: who produced the equal timestamps of this log - the harness (a
+// clock that repeats a reading, shape.EqTS) or the leader itself although
+// every clock reading was different.
+func (e *c10Env) eqOrigin() string {
+	if e.shape.EqTS {
+		return "appended"
+	}
+	return "leader-assigned"
+}
+
+// eqRunCause: the lookup answered with a member of the run of >= 2 messages
+// that carry exactly ts, but not with the member the documented rule names
+// (the first one for a start time, the last one for a stop time).  The name
+// says WHICH wrong member: the first member of the run inside a later segment
+// file (start) / the first member of the run inside the run's last segment
+// file (stop) - or any other.  "" if got is not such a member.
+func (st *c10State) eqRunCause(got, ts, want int64, stop bool) string {
+	gi, ok := st.idx[got]
+	wi, ok2 := st.idx[want]
+	if !ok || !ok2 || got == want || st.All[gi].TS != ts || st.All[wi].TS != ts {
+		return ""
+	}
+	firstInItsSegment := gi == 0 || st.All[gi-1].TS != ts || st.segOf(st.All[gi-1].Off) != st.segOf(got)
+	switch {
+	case !stop && firstInItsSegment && st.segOf(got) != st.segOf(want):
+		return "run-across-segments:first-member-in-a-later-segment"
+	case stop && firstInItsSegment && st.segOf(got) == st.segOf(want):
+		return "first-member-in-the-runs-last-segment"
+	}
+	return "other-member-of-the-run"
+}
+
 func (e *c10Env) causeForward(st *c10State, s c10Start, t c10Stop, w c10Want) string {
 	l := e.p.log
 	if s.Pos == client.StartPosition_TIMESTAMP {
 		got, err := l.EarliestOffsetAfterTimestamp(s.TS)
 		if got < 0 {
 			got = 0
+		}
+		if c := st.eqRunCause(got, s.TS, w.SReq, false); err == nil && c != "" {
+			return "start-timestamp-lookup:equal-timestamps:" + c + ":" + e.eqOrigin()
 		}
 		if err != nil || got != w.SReq {
 			switch {
@@ -964,6 +1182,9 @@ func (e *c10Env) causeForward(st *c10State, s c10Start, t c10Stop, w c10Want) st
 			return ""
 		}
 		implStop, resolved = got, true
+		if c := st.eqRunCause(got, t.TS, w.Bound, true); w.HasBound && c != "" {
+			return "stop-timestamp-lookup:equal-timestamps:" + c + ":" + e.eqOrigin()
+		}
 	}
 	if resolved && !st.has(implStop) && implStop <= st.Newest && implStop >= 0 {
 		return "overshoot:stop-offset-not-retained:" + t.Class
